@@ -1,5 +1,6 @@
-(* C13 — entry points on bytes, the refutation of exact positions/indentation in alias mode (a line feed
-   inside an alias parameter), and non-vacuity examples for the theorems of Props/C13.v. *)
+(* C13 — entry points on bytes, facts about the regenerated keyword table and non-vacuity examples for the
+   theorems of Props/C13.v (incl. the alias with a line feed inside <...> that was mispositioned before the
+   fix a49a8e1 of /repo). *)
 From Coq Require Import List NArith Bool Lia.
 Import ListNotations.
 From DDP Require Import Gen.Tokens Lex.Utf8 Lex.Utf8Proofs Lex.ScanModel Lex.ScanSpec Lex.ScanProofs Lex.ScanKinds Lex.ScanIndent Lex.ScanRun.
@@ -25,21 +26,12 @@ Proof.
   match goal with H : keyword_type _ = Some _ |- _ => apply keyword_type_not_special in H; apply H; cbn; tauto end.
 Qed.
 
-(* ---- refutations: alias mode, a line feed inside <...> ---- *)
-Definition bad_alias : list N := [60; 10; 62; 120].          (* "<\n>x" *)
-Lemma positions_alias_refuted :
-  exists src ts, scan_from Alias 1 1 0 src = Some ts /\ ~ Forall (positioned 1 1 src) ts.
-Proof.
-  exists bad_alias. eexists. split; [vm_compute; reflexivity|].
-  intros H. inversion H as [|t r [_ He] _]; subst. vm_compute in He. discriminate He.
-Qed.
-Definition bad_alias_indent : list N := [9; 60; 10; 62].    (* "\t<\n>" *)
-Lemma indents_alias_refuted :
-  exists src ts, scan_from Alias 1 1 0 src = Some ts /\ ~ indents src true 0 0 ts.
-Proof.
-  exists bad_alias_indent. eexists. split; [vm_compute; reflexivity|].
-  intros H. cbn [indents] in H. destruct H as [H _]. vm_compute in H. discriminate H.
-Qed.
+(* ---- the former counterexamples: alias mode, a line feed inside <...> ---- *)
+Definition lf_alias : list N := [9; 60; 10; 62; 120].          (* "\t<\n>x" *)
+Example lf_alias_tokens :
+  option_map (map (fun t => (length (lit t), tindent t, (sl t, sc t), (el t, ec t)))) (scan_from Alias 1 1 0 lf_alias) =
+  Some [(3%nat, 0, (1,2), (2,2)); (1%nat, 0, (2,2), (2,3)); (0%nat, 0, (2,3), (2,3))].
+Proof. vm_compute. reflexivity. Qed.
 
 (* ---- non-vacuity ---- *)
 (* "Wenn x größer als 1,5 ist,\n\tSchreibe \"a\\n\" [k [n]]." : keywords, identifier, float, text, nested comment, indentation *)
@@ -57,15 +49,12 @@ Example sample_kinds :
   option_map (map (fun t => existsb (N.eqb (ty t)) [tt_IDENTIFIER; tt_FLOAT; tt_STRING; tt_COMMENT; tt_COMMA; tt_DOT; tt_EOF])) (scan Normal sample) =
   Some [false; true; false; false; true; false; true; true; true; true; true; true].
 Proof. vm_compute. reflexivity. Qed.
-(* an alias that satisfies the hypothesis of the alias-mode theorems *)
 Definition sample_alias : list N := [100;101;114;32;60;97;62;32;42;120].       (* "der <a> *x" *)
 Example sample_alias_ok : exists ts, scan_from Alias 3 7 2 sample_alias = Some ts /\
-  (forall t, In t ts -> ty t = tt_ALIAS_PARAMETER -> ~ In 10 (lit t)) /\
-  exists t, In t ts /\ ty t = tt_ALIAS_PARAMETER.
+  exists t, In t ts /\ ty t = tt_ALIAS_PARAMETER /\ (sl t, sc t) = (3, 11) /\ tindent t = 2.
 Proof.
-  eexists. split; [vm_compute; reflexivity|]. split.
-  - intros t I E. cbn in I. repeat (destruct I as [<-|I]; [try (vm_compute in E; discriminate E); cbn; intuition discriminate|]). destruct I.
-  - eexists. split; [right; left; reflexivity|reflexivity].
+  eexists. split; [vm_compute; reflexivity|].
+  eexists. split; [right; left; reflexivity|]. vm_compute. auto.
 Qed.
 Example sample_utf8 : valid [195; 164; 226; 130; 172; 240; 159; 152; 128] = true /\ valid [237; 160; 128] = false /\ valid [192; 128] = false.
 Proof. vm_compute. auto. Qed.
